@@ -302,10 +302,10 @@ Proof.
 Qed.
 
 Lemma q_empty_in q_lo q_hi :
-  lo <= q_lo -> q_hi <= hi -> (forall s a, q_lo <= q0 s a <= q_hi) -> inI lo hi q_empty.
+  lo <= q_lo -> q_hi <= hi -> (forall s a, absflag m s = false -> q_lo <= q0 s a <= q_hi) -> inI lo hi q_empty.
 Proof.
   intros H1 H2 H s a. cbn [TD.q_empty qval]. unfold q_init_val. destruct IC as [L0 H0 _ _].
-  destruct (absflag m s); [numR; lra|]. specialize (H s a). lra.
+  destruct (absflag m s) eqn:E; [numR; lra|]. specialize (H s a E). lra.
 Qed.
 
 Lemma fold_inv {S E} (f : S -> E -> S) (Pst : S -> Prop) (Pev : E -> Prop) evs st :
@@ -317,7 +317,7 @@ Proof.
 Qed.
 
 Lemma dq_train_in q_lo q_hi evs :
-  lo <= q_lo -> q_hi <= hi -> (forall s a, q_lo <= q0 s a <= q_hi) ->
+  lo <= q_lo -> q_hi <= hi -> (forall s a, absflag m s = false -> q_lo <= q0 s a <= q_hi) ->
   Forall (ev_ok rmin rmax) evs ->
   inI lo hi (fst (dq_train m q0 alpha evs)) /\ inI lo hi (snd (dq_train m q0 alpha evs)).
 Proof.
@@ -328,7 +328,7 @@ Proof.
 Qed.
 
 Lemma train_in L q_lo q_hi evs :
-  0 <= eps <= 1 -> lo <= q_lo -> q_hi <= hi -> (forall s a, q_lo <= q0 s a <= q_hi) ->
+  0 <= eps <= 1 -> lo <= q_lo -> q_hi <= hi -> (forall s a, absflag m s = false -> q_lo <= q0 s a <= q_hi) ->
   Forall (ev_ok rmin rmax) evs -> inI lo hi (train m q0 alpha eps L evs).
 Proof.
   intros He H1 H2 H0 Hev. pose proof (q_empty_in q_lo q_hi H1 H2 H0) as Hinit.
@@ -374,7 +374,7 @@ Qed.
 
 Theorem td_interval L q_lo q_hi rmin rmax evs :
   0 <= alpha <= 1 -> 0 <= eps <= 1 -> 0 <= gamma m < 1 ->
-  (forall s a, q_lo <= q0 s a <= q_hi) -> Forall (ev_ok rmin rmax) evs ->
+  (forall s a, absflag m s = false -> q_lo <= q0 s a <= q_hi) -> Forall (ev_ok rmin rmax) evs ->
   forall s a, Ilo q_lo rmin <= qval (train m q0 alpha eps L evs) s a <= Ihi q_hi rmax.
 Proof.
   intros Hal He Hg H0 Hev.
@@ -385,7 +385,7 @@ Qed.
 (* double Q: the two tables themselves (not only their returned mean) stay in the interval *)
 Theorem td_interval_double q_lo q_hi rmin rmax evs :
   0 <= alpha <= 1 -> 0 <= gamma m < 1 ->
-  (forall s a, q_lo <= q0 s a <= q_hi) -> Forall (ev_ok rmin rmax) evs ->
+  (forall s a, absflag m s = false -> q_lo <= q0 s a <= q_hi) -> Forall (ev_ok rmin rmax) evs ->
   forall s a,
     Ilo q_lo rmin <= qval (fst (dq_train m q0 alpha evs)) s a <= Ihi q_hi rmax /\
     Ilo q_lo rmin <= qval (snd (dq_train m q0 alpha evs)) s a <= Ihi q_hi rmax.
